@@ -5150,7 +5150,7 @@ func readOfficialHeader(buf []byte) (size uint32, containerTyper func(index uint
 	}
 	cf := func(index uint, card int) (newType byte) {
 		newType = containerBitmap
-		if card < ArrayMaxSize {
+		if card <= ArrayMaxSize {
 			newType = containerArray
 		}
 		return newType
